@@ -3,7 +3,7 @@ import Verif.Model.FailClosed
   Line-protocol driver for C17 (fail-closed issuance).
 
     run op=<op> e=<n> a=<n> [ch=<n> n=<n> crl=<0|1>] db=<1|0> chk=<i|-> faults=<pos:kind,…|-> sub=…
-        → <ok|err> got=<cert|ack|none> tok=Δ stored=Δ data=Δ rev=Δ reuse=<ok|err|na> fc=ok trace=<kind:outcome,…|->
+        → <ok|err> got=<cert|ack|none> tok=Δ stored=Δ data=Δ rev=Δ reuse=<ok|err|na> handed=N recorded=N fc=ok trace=<kind:outcome,…|->
       (ACME: … acme=Δ valid=<0|1> instead of rev / reuse)
     src fn=<go function>
         → the order of the external calls / decisions the model assumes inside that function,
@@ -21,6 +21,7 @@ def op? : String → Option Op
   | "revoke" => some .revoke | "revokemtls" => some .revokeMTLS
   | "sshsign" => some .sshSign | "sshrenew" => some .sshRenew | "sshrekey" => some .sshRekey
   | "sshrevoke" => some .sshRevoke | "acme" => some .acmeFinalize | "scep" => some .scepEnroll
+  | "sshsignfull" => some .sshSignFull
   | _ => none
 
 def outcome? : String → Option Outcome
@@ -74,7 +75,10 @@ def evalRun (kv : List (String × String)) : Option String := do
   let tail := if op = .acmeFinalize then s!" acme={d.acmeCerts} valid={b d.orderValid}" else s!" rev={b d.revoked} reuse={reuse}"
   -- `fc`: the harness evaluates the property on the implementation's own trace; the model
   -- satisfies it by `fail_closed`, `stored_before_returned`, `token_spent`
-  pure (head ++ tail ++ s!" fc=ok trace={trace r.1.log}")
+  -- certificates in the response, and how many of them are found in the tables by serial
+  let handed := if cl = .certificate then r.1.made else 0
+  let recorded := if db then handed - r.1.unstored else 0
+  pure (head ++ tail ++ s!" handed={handed} recorded={recorded} fc=ok trace={trace r.1.log}")
 
 /-- collapse runs of webhook steps (the source has one call for all webhooks of a kind) and
     runs of in-process checks (the extractor reports adjacent checks once) -/
@@ -98,6 +102,7 @@ def evalSrc (fn : String) : String :=
   | "renewContext" => renderSrc renewContextSteps
   | "Revoke" => renderSrc revokeSourceOrder
   | "signSSH" => renderSrc (signSSHSteps one)
+  | "SignSSHAddUser" => renderSrc signSSHAddUserSteps
   | "renewSSH" => renderSrc renewSSHSteps
   | "rekeySSH" => renderSrc rekeySSHSteps
   | "Finalize" =>
